@@ -5,7 +5,12 @@ PATCH="$1"; BUDGET="$2"; shift 2
 cd /repo || exit 2
 if ! git diff --quiet; then echo "/repo has uncommitted changes"; exit 2; fi
 git apply "$PATCH" || { echo "patch does not apply"; exit 2; }
-trap 'git -C /repo checkout -- . ; git -C /repo clean -fdq x app cmd 2>/dev/null' EXIT
+restore() {
+  git -C /repo checkout -- . ; git -C /repo clean -fdq x app cmd 2>/dev/null
+  # rebuild the simulator from the restored tree so that bin/verifsim is never left built from a seeded change
+  (cd /verif/sim && GOFLAGS=-mod=mod GOPROXY=off GOSUMDB=off GOTOOLCHAIN=local go build -tags verif -o /verif/bin/verifsim ./cmd/verifsim)
+}
+trap restore EXIT
 cd /verif
 for id in "$@"; do
   out=$(VERIF_BUDGET_S=$BUDGET VERIF_DIR=/var/tmp/seedtest-verif ./check.sh "$id" quick 2>&1); rc=$?
